@@ -82,6 +82,29 @@ pub fn main_entry(hooks: bool) {
             let name = args.get(1).cloned().unwrap_or_default();
             checks::worker(&name).unwrap_or_else(|| machinery(&format!("unknown worker {name}")));
         }
+        "gen-src" => {
+            // debugging aid: `mc gen-src <file.rs> [--dedup]`: Rust definitions (the syntax of the conformance
+            // corpus, with a `roots!(A, B<u8>);` line) -> SPM -> registry -> generated module
+            let src = std::fs::read_to_string(args.get(1).map(|s| s.as_str()).unwrap_or("")).unwrap_or_else(|e| machinery(&format!("read: {e}")));
+            let (mut prog, roots) = corpus::parse_corpus(&src, &["k"]);
+            prog.roots = roots.into_iter().map(|r| r.1).collect();
+            let mut reg = spm::elaborate(&prog).registry;
+            if args.iter().any(|a| a == "--dedup") {
+                println!("dedup: {:?}", scale_typegen::utils::ensure_unique_type_paths(&mut reg).map_err(|e| e.to_string()));
+            }
+            for t in &reg.types {
+                println!("// {} {} {:?}", t.id, t.ty.path.segments.join("::"), t.ty.type_params.iter().map(|p| (p.name.clone(), p.ty.map(|x| x.id))).collect::<Vec<_>>());
+            }
+            let spec = settings::SettingsSpec::faithful();
+            match run::generate(&reg, &spec.build()) {
+                run::GenOutcome::Ok { tokens } => println!("{tokens}"),
+                other => println!("{other:?}"),
+            }
+            for id in 0..reg.types.len() as u32 {
+                println!("// description {id}: {:?}", run::guarded(|| scale_typegen_description::type_description(id, &reg, false).map_err(|e| e.to_string())));
+                println!("// rust value {id}: {:?}", run::guarded(|| scale_typegen_description::rust_value_from_seed(id, &reg, &spec.build(), 1, None, None).map(|t| t.to_string()).map_err(|e| e.to_string())));
+            }
+        }
         "gen-polkadot" => {
             // debugging aid: hash of de-duplicated + generated Polkadot module
             let mut r = run::polkadot_registry();
